@@ -62,6 +62,10 @@ def auto_models(j, skip=()):
             flm = '%s r; __builtin_memset(&r, 0, sizeof r); *(void**)&r = fl_begin_of(%s); return r;' % (s['ret'], ps[0][1])
         elif re.match(r'std::forward_list<.*>::c?end$', q) and len(ps) == 1:
             flm = '%s r; __builtin_memset(&r, 0, sizeof r); return r;' % s['ret']
+        elif re.match(r'std::forward_list<.*>::empty$', q) and len(ps) == 1:
+            flm = 'return fl_length(%s) == 0;' % ps[0][1]
+        elif re.match(r'std::forward_list<.*>::front$', q) and len(ps) == 1:
+            flm = 'return (%s)__ipr_fl_front(%s);' % (s['ret'], ps[0][1])
         elif re.match(r'std::_Fwd_list_(const_)?iterator<.*>::operator\*$', q) and len(ps) == 1:
             flm = '__CPROVER_assert(*(void**)%s != 0, "forward_list model: dereference of a valid iterator"); return (%s)*(void**)%s;' % (ps[0][1], s['ret'], ps[0][1])
         elif re.match(r'std::_Fwd_list_(const_)?iterator<.*>::operator->$', q) and len(ps) == 1:
